@@ -41,6 +41,7 @@ type Prog struct {
 	allMod      []*ssa.Function
 	cellStores  map[string][]*ssa.Store
 	onceField   map[*ssa.FieldAddr]*ssa.Store
+	hofApplied  map[*ssa.Function]bool // literals applied through a predicate HOF (slices.ContainsFunc ...)
 	// adopted: a function whose only use is as a value in one function (a
 	// former closure turned into a named method) -> that function
 	adopted      map[*ssa.Function]*ssa.Function
